@@ -124,7 +124,12 @@ def _locate_droplets_in_mask_cartesian(mask: ScalarField) -> Emulsion:
     volumes = ndimage.sum(mask.data, labels, index=indices)
     volumes = np.asanyarray(volumes) * cell_volume
 
-    # connect clusters linked viaperiodic boundary conditions
+    # connect clusters linked via periodic boundary conditions
+    # `cluster[i]` is the label of the merged cluster that the original label `i + 1`
+    # belongs to, while `offsets[i]` counts by how many periods this original cluster
+    # has been shifted along each axis to connect it to its merged cluster
+    cluster = np.arange(1, num_labels + 1)
+    offsets = np.zeros((num_labels, grid.num_axes), dtype=int)
     for ax in np.flatnonzero(grid.periodic):  # look at all periodic axes
         # compile list of all boundary points connected along the current axis
         low: list[list[int] | np.ndarray] = []
@@ -139,22 +144,29 @@ def _locate_droplets_in_mask_cartesian(mask: ScalarField) -> Emulsion:
 
         # iterate over all boundary points
         for l, h in zip(product(*low), product(*high)):
-            i_l, i_h = labels[l], labels[h]
-            if i_l > 0 and i_h > 0 and i_l != i_h:
+            if labels[l] == 0 or labels[h] == 0:
+                continue
+            k_l, k_h = labels[l] - 1, labels[h] - 1
+            i_l, i_h = cluster[k_l], cluster[k_h]
+            if i_l != i_h:
                 # boundary condition on the low side connects to that of the high side
                 # -> we combine the cluster into one, setting is new position as the
                 # weighted averages of the center of mass
+                members = cluster == i_h
+                # shift upper cluster so the two boundary points become neighbors
+                shift = offsets[k_l] - offsets[k_h]
+                shift[ax] -= 1
+                offsets[members] += shift
                 v_l, v_h = volumes[i_l - 1], volumes[i_h - 1]
-                pos_l, pos_h = positions[i_l - 1], positions[i_h - 1]
-                pos_h[ax] -= grid.shape[ax]  # wrap around the upper point
-                pos = (pos_l * v_l + pos_h * v_h) / (v_l + v_h)
-                # update both clusters with the new data
-                positions[i_h - 1] = positions[i_l - 1] = pos
-                volumes[i_h - 1] = volumes[i_l - 1] = v_l + v_h
-                labels[labels == i_h] = i_l
+                pos_h = positions[i_h - 1] + shift * np.array(grid.shape)
+                positions[i_l - 1] = (positions[i_l - 1] * v_l + pos_h * v_h) / (
+                    v_l + v_h
+                )
+                volumes[i_l - 1] = v_l + v_h
+                cluster[members] = i_l
 
     # determine which clusters are actually present
-    indices = np.array(sorted(set(np.unique(labels)) - {0}))
+    indices = np.unique(cluster)
 
     # create the list of droplets
     positions = grid.normalize_point(grid.transform(positions, "cell", "grid"))
